@@ -203,7 +203,7 @@ PROPS = {
         note=ENVNOTE + '; maps = finite partial maps (hashing not modelled); ReactionTrigger::register per trigger type and syscommand_runner not under contract',
         explanation='register_* x7 + 2 type-wide schedule fns proved unbounded (Verus, verbatim); entity-scoped dispatch, EntityReactors and revoke_* bounded (Kani); history lemma L3'),
     'C03': dict(category='other', design_ref='DESIGN.md 5/C03',
-        text='Contracts on the four access trackers, every event reader and the setup/cleanup functions of commands.rs: prepare = append, end clears (Verus, unbounded, verbatim); start(r) claims the oldest entry parked for r and leaves the rest in order (Kani, every content of lists of length 0..3 quick / 0..5 thorough); Insertion/Mutation/Removal/DespawnEvent::get return the current reaction\'s source iff the tracker is reacting AND kind AND component type id are the reader\'s, generically in the component type (Verus, verbatim); Broadcast/EntityEvent readers likewise for payload types u32/u16 (Kani, loop-free); start_X/end_X start/stop exactly the trackers of kind X (Verus, verbatim, against the assumed World contract); cleanup_on_abort = setup then cleanup, unconditionally (Verus). Lemma L1 (Verus) lifts the start contract to: for any interleaving of parked events each run of a system receives the oldest metadata parked for it. Not covered: that the runner replays postponed commands in parking order (runner-level histories; known finding F3).',
+        text='Contracts on the four access trackers, every event reader and the setup/cleanup functions of commands.rs: prepare = append, end clears (Verus, unbounded, verbatim); start(r) claims the oldest entry parked for r and leaves the rest in order (Kani, every content of lists of length 0..3 quick / 0..5 thorough); Insertion/Mutation/Removal/DespawnEvent::get return the current reaction\'s source iff the tracker is reacting AND kind AND component type id are the reader\'s, generically in the component type (Verus, verbatim); Broadcast/EntityEvent readers and SystemEvent::take likewise for payload types u32/u16 (Kani, loop-free; a second take in the same run reads nothing); each command\'s apply parks its metadata in exactly the tracker(s) of its kind and hands the runner the (start, end) pair of that kind (Verus, verbatim); start_X/end_X start/stop exactly the trackers of kind X (Verus, verbatim, against the assumed World contract); cleanup_on_abort = setup then cleanup, unconditionally (Verus). Lemma L1 (Verus) lifts the start contract to: for any interleaving of parked events each run of a system receives the oldest metadata parked for it. Not covered: that the runner replays postponed commands in parking order (runner-level histories; known finding F3).',
         note=ENVNOTE + '; the cross-kind metadata mix-up under nested replay (F3) is a runner-level history that no function contract decides: listed in known_findings.json',
         explanation='tracker prepare/end/getters, entity-reaction and despawn readers, start_/end_* and cleanup_on_abort proved by Verus on verbatim text; tracker start and event readers complete@shape by Kani; per-system FIFO by lemma L1; runner not covered'),
     'C04': dict(category='other', design_ref='DESIGN.md 5/C04',
@@ -223,7 +223,7 @@ PROPS = {
         note=ENVNOTE + '; Arc/channel: sequential semantics; garbage collection itself assumed',
         explanation='one clone per effective registration, one drop per revocation, in-flight handle dropped at end, exact ref-count of the signal; collection not covered'),
     'C10': dict(category='other', design_ref='DESIGN.md 5/C10 + 9.5',
-        text='Kani discharges on the real AutoDespawner / AutoDespawnSignal (real std::sync::Arc, assumed FIFO channel) that for 1..3 clones dropped one by one, with the request channel polled after every drop, the prepared entity is requested for despawn exactly once, at the drop of the LAST clone, never while a clone exists, and with the right entity id (symbolic). Lemma L4 (Verus) generalises the count to k clones over the assumed Arc contract. NOT discharged: garbage_collect_entities (drain loop, despawn_recursive of descendants, skipping entities already gone) - a World + Arc + channel harness exceeds the cost rule and the function is outside Verus\' subset (closure effects); threads are not verified at all (Kani has no thread support): every concurrent history of drops is ASSUMED equivalent to a sequential one (Arc\'s atomic count, linearizable channel).',
+        text='Kani discharges on the real AutoDespawner / AutoDespawnSignal (real std::sync::Arc, assumed FIFO channel) that for 1..3 clones dropped one by one, with the request channel polled after every drop, the prepared entity is requested for despawn exactly once, at the drop of the LAST clone, never while a clone exists, and with the right entity id (symbolic); AutoDespawner::new creates an UNBOUNDED request channel (no request can be lost or blocked however many are pending). Lemma L4 (Verus) generalises the count to k clones over the assumed Arc contract. NOT discharged: garbage_collect_entities (drain loop, despawn_recursive of descendants, skipping entities already gone) - a World + Arc + channel harness exceeds the cost rule and the function is outside Verus\' subset (closure effects); threads are not verified at all (Kani has no thread support): every concurrent history of drops is ASSUMED equivalent to a sequential one (Arc\'s atomic count, linearizable channel).',
         note=ENVNOTE + '; threads not verified; garbage_collect_entities not under contract',
         explanation='exact reference count up to the despawn request (Kani, real Arc, <=3 clones; lemma L4); collection and concurrency assumed'),
     'C16': dict(category='other', design_ref='DESIGN.md 5/C16 + 9.5',
